@@ -90,3 +90,5 @@ func (ts *traceSet) close(extra map[string]any) {
 	b, _ := json.Marshal(sum)
 	os.WriteFile(filepath.Join(ts.dir, ts.prefix+"_summary.json"), b, 0o644)
 }
+
+func itoa(i int) string { return strconv.Itoa(i) }
